@@ -279,6 +279,8 @@ Inductive action :=
 Record script := {
   archive : list (path * bytes);     (* the files of the txtar archive, in order; names relative to $WORK *)
   work_named : list path;            (* those of them whose entry name is written $WORK/... in the archive *)
+  escaping_at : option nat;          (* index of an entry whose name, expanded and made absolute, is not below
+                                        $WORK (../x, /abs/x, $HOME/x); its path field is then meaningless *)
   setup_adds : env;                  (* variables Params.Setup appends *)
   setup_defers : list (nat * bool);  (* Env.Defer calls made by Params.Setup, in order *)
   setup_err : bool;                  (* Params.Setup returns an error *)
@@ -347,6 +349,9 @@ Record config := {
   key_by_path : bool;   (* execCache keyed by PATH value and program (true) or by program only *)
   names_see_env : bool; (* archive entry names are expanded with the initial environment (true) or with
                            an empty one, as before the repair: $WORK/x is then the absolute path /x *)
+  names_contained : bool; (* setup() refuses an entry name that leaves the work directory (true) or
+                             writes the file where the name says, as before the repair *)
+  empty_cleans : bool;    (* RunT with no script at all removes the root itself (true) or leaves it *)
   continue_on_error : bool; (* Params.ContinueOnError *)
   has_cancel : bool;    (* Params.Deadline set: cancel is not nil *)
   is_root : bool;       (* the test process ignores permission bits *)
@@ -490,12 +495,42 @@ Definition any_bad (d : list (nat * bool)) : bool := existsb snd d.
    (ts.MkAbs).  A name written $WORK/p is the file p of the work directory when $WORK is defined at
    that point; when the environment is still empty it is /p, outside the work directory. *)
 Definition is_work_named (p : script) (q : path) : bool := existsb (path_eqb q) (work_named p).
+
+Definition esc_index (p : script) : option nat :=
+  match escaping_at p with
+  | Some i => if Nat.ltb i (length (archive p)) then Some i else None
+  | None => None
+  end.
+
+(* the entries setup() gets to: all of them, or those before the refused one; before the repair the
+   escaping entry was written outside and the loop went on *)
+Definition kept (cfg : config) (p : script) : list (path * bytes) :=
+  match esc_index p with
+  | None => archive p
+  | Some i => if names_contained cfg then firstn i (archive p)
+              else firstn i (archive p) ++ skipn (S i) (archive p)
+  end.
+
+Definition esc_paths (cfg : config) (p : script) : list path :=
+  match esc_index p with
+  | Some i => if names_contained cfg then []
+              else match nth_error (archive p) i with Some f => [fst f] | None => [] end
+  | None => []
+  end.
+
 Definition effective_files (cfg : config) (p : script) : list (path * bytes) :=
-  if names_see_env cfg then archive p
-  else filter (fun f => negb (is_work_named p (fst f))) (archive p).
+  if names_see_env cfg then kept cfg p
+  else filter (fun f => negb (is_work_named p (fst f))) (kept cfg p).
 Definition escapes_of (cfg : config) (p : script) : list path :=
-  if names_see_env cfg then []
-  else map fst (filter (fun f => is_work_named p (fst f)) (archive p)).
+  (if names_see_env cfg then []
+   else map fst (filter (fun f => is_work_named p (fst f)) (kept cfg p))) ++ esc_paths cfg p.
+
+(* ts.Fatalf("... refers outside the work directory") *)
+Definition setup_rejected (cfg : config) (p : script) : bool :=
+  names_contained cfg && match esc_index p with Some _ => true | None => false end.
+
+Definition setup_result (cfg : config) (p : script) : option tree :=
+  if setup_rejected cfg p then None else setup_tree (is_root cfg) (effective_files cfg p).
 
 (* what a step asks of the shared state beyond the cache *)
 Inductive effect := NoEffect | Finished.
@@ -506,7 +541,7 @@ Definition sstep (cfg : config) (p : script) (s : nat) (c : cache) (ss : sstate)
   | NotStarted =>
       let e := initial_env (hostenv cfg) s (setup_adds p) in
       let regs := map (fun d => EvDeferReg (fst d)) (setup_defers p) in
-      match setup_tree (is_root cfg) (effective_files cfg p) with
+      match setup_result cfg p with
       | None =>
           (* unpacking failed: Setup is not reached *)
           (c, {| ph := Ending VSetupFail SDefers; cwd := []; senv := [];
@@ -601,6 +636,16 @@ Definition step (cfg : config) (progs : list script) (st : bstate) (s : nat) : b
 Definition init (progs : list script) : bstate :=
   {| sh := {| root_present := true; refcount := length progs; xcache := []; cancelled := false; root_removals := 0 |};
      scripts := map (fun _ => sstate0) progs |}.
+
+(* RunT with Params.Files non-nil and empty: no subtest will ever remove the root *)
+Definition start (cfg : config) (progs : list script) : bstate :=
+  match progs with
+  | [] => if empty_cleans cfg && negb (retain cfg)
+          then {| sh := {| root_present := false; refcount := 0; xcache := []; cancelled := has_cancel cfg; root_removals := 1 |};
+                  scripts := [] |}
+          else init progs
+  | _ => init progs
+  end.
 
 Definition run (cfg : config) (progs : list script) (st : bstate) (sched : list nat) : bstate :=
   fold_left (step cfg progs) sched st.
